@@ -142,13 +142,14 @@ def _migrate_csv_to_rules(csv_file: str, config_dir: str, backup: bool = True) -
         settings_path = os.path.join(config_dir, 'settings.yaml')
         settings_updated = False
         if os.path.exists(settings_path):
-            with open(settings_path, 'r', encoding='utf-8') as f:
+            # newline='' keeps the file's own line endings (CRLF settings stay CRLF)
+            with open(settings_path, 'r', encoding='utf-8', newline='') as f:
                 settings_content = f.read()
             # (an active setting, not a commented-out '# merchants_file: ...' line)
             import re
             if not re.search(r'^[ \t]*merchants_file[ \t]*:', settings_content, re.MULTILINE):
                 tmp_settings = settings_path + '.tmp'
-                with open(tmp_settings, 'w', encoding='utf-8') as f:
+                with open(tmp_settings, 'w', encoding='utf-8', newline='') as f:
                     f.write(settings_content)
                     f.write('\n# Merchant rules file (migrated from CSV)\n')
                     f.write('merchants_file: config/merchants.rules\n')
